@@ -62,7 +62,7 @@ class Index(object):
     self.cycs = []      # (seq, n, snap, nleft)
     self.srecv = []     # (seq, sock, time, hex)
     self.ssend = []     # (seq, sock, time, marker, offered, accepted)
-    self.tnew, self.tcancel, self.fires = {}, {}, {}
+    self.tnew, self.tcancel, self.fires, self.tstart = {}, {}, {}, {}
     self.overlaps, self.xexc, self.killed, self.runexc = [], [], [], []
     self.wedged, self.deadlocks = [], []
     self.regs = []
@@ -89,6 +89,8 @@ class Index(object):
         self.ssend.append((seq, e[1], e[2], e[3], e[4], e[5]))
       elif k == "tnew":
         self.tnew.setdefault(e[1], (seq, e[2]))
+      elif k == "tstart":
+        self.tstart.setdefault(e[1], (seq, e[2]))
       elif k == "tcancel":
         self.tcancel.setdefault(e[1], (seq, e[2]))
       elif k == "fire":
@@ -322,7 +324,11 @@ def check(case, log):
             fail("ready-fd-never-reported", "%s: Recv on s%d never resumed although unread data is pending at %s" % (tid, op["sock"], stop_time))
         elif kind == "send":
           w = _sock_w_at(case, op["sock"])
-          if w is not None and w <= stop_time:
+          tried = any(s2 == op["sock"] and m == op.get("marker") for (q2, s2, t2, m, off, a2) in ix.ssend)
+          if op.get("t") is not None and not tried and rtime + op["t"] <= stop_time:
+            fail("timed-wait-never-resumed", "%s: %r requested at %s (no progress, timeout due %s) never resumed; idle at %s" % (
+                tid, op, rtime, rtime + op["t"], stop_time), op=kind)
+          elif w is not None and w <= stop_time:
             fail("send-never-completed", "%s: Send on s%d (writable since %s) never resumed; idle at %s" % (tid, op["sock"], w, stop_time))
         elif kind == "block":
           wk = [a for a in ix.acts if a[4] == "wake" and a[5] == tid and a[6] and a[0] > rseq]
@@ -471,9 +477,19 @@ def check(case, log):
       rec = bool(spec.get("recurring"))
       fl = ix.fires.get(i, [])
       canc = ix.tcancel.get(i)
-      low = ctime + t
+      st = ix.tstart.get(i)
+      if st is None:
+        # constructed with started=False and never started: it must stay silent
+        if fl:
+          fail("timer-fired-before-start", "timer %d fired at %s although start() was never called" % (i, fl[0][2]), recurring=rec)
+        continue
+      if fl and fl[0][0] < st[0]:
+        fail("timer-fired-before-start", "timer %d fired at %s before start() at %s" % (i, fl[0][2], st[1]), recurring=rec)
+        continue
+      # a relative delay counts from start(); an absolute time is what it is (but nothing fires before start())
+      low = max(st[1], ctime + t) if spec.get("abs") else st[1] + t
       cont = True
-      last_u = ctime + t
+      last_u = low
       for n, (fseq, k, ftime, ret) in enumerate(fl):
         if k != n:
           fail("timer-fire-count", "timer %d: firing number %d logged at position %d" % (i, k, n))
@@ -493,8 +509,8 @@ def check(case, log):
       else:
         if cont and canc is None and judge_liveness and last_u <= stop_time:
           fail("timer-never-fired" if not fl else "timer-stopped-firing",
-               "timer %d (created %s, t=%s, %s) has %d firing(s), the next was due by %s; scheduler idle at %s" % (
-                   i, ctime, t, "recurring" if rec else "one-shot", len(fl), last_u, stop_time), recurring=rec)
+               "timer %d (created %s, started %s, t=%s, %s) has %d firing(s), the next was due by %s; scheduler idle at %s" % (
+                   i, ctime, st[1], t, "recurring" if rec else "one-shot", len(fl), last_u, stop_time), recurring=rec)
 
   # ------------------------------------------------------------------ bounded wait in the ready queue
   _check_cycles(ix, fail, P)
@@ -603,8 +619,11 @@ def _check_idle(case, ix, fail, P, is_poisoned, timers):
             why = "data arriving on s%d at %s" % (op["sock"], x)
       elif kind == "send":
         x = _sock_w_at(case, op["sock"])
+        tried = any(s2 == op["sock"] and m == op.get("marker") and q2 < q for (q2, s2, t2, m, off, a2) in ix.ssend)
         if x is not None and x < b:
           why = "s%d writable at %s" % (op["sock"], x)
+        elif op.get("t") is not None and not tried and rtime + op["t"] < b:
+          why = "its timeout (%s) with no progress" % (rtime + op["t"])
       elif kind == "block":
         wk = [c for c in ix.acts if c[4] == "wake" and c[5] == tid and c[6] and rseq < c[0] < q]
         if wk:
@@ -621,7 +640,10 @@ def _check_idle(case, ix, fail, P, is_poisoned, timers):
       canc = ix.tcancel.get(i)
       if canc is not None and canc[0] < q:
         continue
-      u = ctime + spec["t"]
+      st = ix.tstart.get(i)
+      if st is None or st[0] > q:
+        continue
+      u = max(st[1], ctime + spec["t"]) if spec.get("abs") else st[1] + spec["t"]
       alive = True
       for (fseq, k, ftime, ret) in ix.fires.get(i, []):
         if fseq > q:
@@ -829,6 +851,13 @@ def labels(case, log):
   for i in ix.tnew:
     if case["timers"][i].get("create") == "task":
       L.add("timer:created-by-task")
+    if not case["timers"][i].get("started", True):
+      st = ix.tstart.get(i)
+      L.add("timer:started-False:" + ("never-started" if st is None else ("started-later" if st[1] > ix.tnew[i][1] else "started-at-once")))
+  for tid, rq in ix.reqs.items():
+    for step, (rseq, pc, rtime, op) in rq.items():
+      if op["op"] in ("select", "recv", "send") and op.get("t") is not None and op["t"] == 0:
+        L.add("poll-timeout-0:" + op["op"] + (":float" if isinstance(op["t"], float) else ":int"))
   if ix.tcancel:
     L.add("timer:cancelled")
   for i, c in ix.tcancel.items():
